@@ -73,7 +73,7 @@ def E(e):
             return ".cnone"
         if isinstance(v, float):
             return f"(.cfloat {lstr(repr(v))})"
-        return f"(.other {lstr('Constant:' + type(v).__name__)})"
+        return f"(.other {lstr('Constant:' + type(v).__name__)} [])"
     if t is ast.Call:
         kws = ["(%s, %s)" % (lstr(k.arg or "**"), E(k.value)) for k in e.keywords]
         return f"(.call {E(e.func)} {L([E(a) for a in e.args])} {L(kws)})"
@@ -105,7 +105,11 @@ def E(e):
         ps = simple_params(e.args)
         if ps is not None and all(d is None for _, d in ps):
             return f"(.lambda {L([lstr(n) for n, _ in ps])} {E(e.body)})"
-    return f"(.other {lstr(t.__name__)})"
+    kids = [c for c in ast.iter_child_nodes(e) if isinstance(c, ast.expr)]
+    for c in ast.iter_child_nodes(e):   # comprehensions, keywords … : one level of non-expression wrappers
+        if not isinstance(c, (ast.expr, ast.expr_context, ast.operator, ast.unaryop, ast.cmpop, ast.boolop)):
+            kids += [g for g in ast.walk(c) if isinstance(g, ast.expr) and g is not c][:0] + [g for g in ast.iter_child_nodes(c) if isinstance(g, ast.expr)]
+    return f"(.other {lstr(t.__name__)} {L([E(k) for k in kids])})"
 
 
 def S(s):
@@ -138,7 +142,13 @@ def S(s):
     if t is ast.Try:
         hs = [SL(h.body) for h in s.handlers]
         return f"(.tryS {SL(s.body)} {L(hs)} {SL(s.orelse)} {SL(s.finalbody)})"
-    return f"(.other {lstr(t.__name__)})"
+    es = [c for c in ast.iter_child_nodes(s) if isinstance(c, ast.expr)]
+    ss = [c for c in ast.iter_child_nodes(s) if isinstance(c, ast.stmt)]
+    for c in ast.iter_child_nodes(s):   # handlers, withitems, match cases …
+        if not isinstance(c, (ast.expr, ast.stmt)):
+            es += [g for g in ast.iter_child_nodes(c) if isinstance(g, ast.expr)]
+            ss += [g for g in ast.iter_child_nodes(c) if isinstance(g, ast.stmt)]
+    return f"(.other {lstr(t.__name__)} {L([E(k) for k in es])} {SL(ss)})"
 
 
 def SL(body):
@@ -171,7 +181,7 @@ def dumpE(e):
             return "(none)"
         if isinstance(v, float):
             return f"(f {v!r})"
-        return f"(other Constant:{type(v).__name__})"
+        return f"(other Constant:{type(v).__name__} [])"
     if t is ast.Call:
         kws = ["(kw %s %s)" % (k.arg or "**", dumpE(k.value)) for k in e.keywords]
         return f"(call {dumpE(e.func)} {dl([dumpE(a) for a in e.args])} {dl(kws)})"
@@ -203,7 +213,11 @@ def dumpE(e):
         ps = simple_params(e.args)
         if ps is not None and all(d is None for _, d in ps):
             return f"(lambda {dl([n for n, _ in ps])} {dumpE(e.body)})"
-    return f"(other {t.__name__})"
+    kids = [c for c in ast.iter_child_nodes(e) if isinstance(c, ast.expr)]
+    for c in ast.iter_child_nodes(e):
+        if not isinstance(c, (ast.expr, ast.expr_context, ast.operator, ast.unaryop, ast.cmpop, ast.boolop)):
+            kids += [g for g in ast.iter_child_nodes(c) if isinstance(g, ast.expr)]
+    return f"(other {t.__name__} {dl([dumpE(k) for k in kids])})"
 
 
 def dumpS(s):
@@ -236,7 +250,13 @@ def dumpS(s):
     if t is ast.Try:
         hs = [dumpSL(h.body) for h in s.handlers]
         return f"(try {dumpSL(s.body)} {dl(hs)} {dumpSL(s.orelse)} {dumpSL(s.finalbody)})"
-    return f"(other {t.__name__})"
+    es = [c for c in ast.iter_child_nodes(s) if isinstance(c, ast.expr)]
+    ss = [c for c in ast.iter_child_nodes(s) if isinstance(c, ast.stmt)]
+    for c in ast.iter_child_nodes(s):
+        if not isinstance(c, (ast.expr, ast.stmt)):
+            es += [g for g in ast.iter_child_nodes(c) if isinstance(g, ast.expr)]
+            ss += [g for g in ast.iter_child_nodes(c) if isinstance(g, ast.stmt)]
+    return f"(other {t.__name__} {dl([dumpE(k) for k in es])} {dumpSL(ss)})"
 
 
 def dumpSL(body):
